@@ -157,8 +157,13 @@ def shards(ctx):
             out.append({"cfg": "c64", "sig": True, "state": [st[0], list(st[1])], "history": hists[0]})
     ctx.extra["abstract_states"] = len(reach) + 1
     # the slot count is an operand too: boundary values of l (a bit mask or a narrow counter over slots would break here)
-    for l in ((9, 33, 65) if ctx.tier == "quick" else (9, 16, 17, 31, 32, 33, 63, 64, 65, 100, 255, 256, 257)):
-        out.append({"sub": "large-l", "cfg": "asm", "sig": l % 2 == 1, "l": l})
+    # (20 slots with signatures is the configuration the scheme is deployed with; the thorough tier takes EVERY l up to 40)
+    if ctx.tier == "quick":
+        ls = [(9, True), (20, True), (20, False), (33, True), (64, False), (65, True)]
+    else:
+        ls = [(l, l % 2 == 1) for l in list(range(4, 41)) + [63, 64, 65, 100, 255, 256, 257]] + [(20, True), (21, False), (32, True), (33, False)]
+    for l, sig in ls:
+        out.append({"sub": "large-l", "cfg": "asm", "sig": sig, "l": l})
     if ctx.tier == "thorough":
         # "start from non-initial states": EVERY history of length 1 and 2 over the l=2 alphabet is a source state of its own (no
         # deduplication by abstract state), so a key that reaches the same pattern along another route is explored from as well
